@@ -1,10 +1,10 @@
 """C14 - concurrent senders never corrupt the outbound sequence.
 
 Spec: spec/SendConc.tla (tasks x suspension points, FIFO drain wake-up), checked
-exhaustively by TLC (deadlock-free, S1-S5).  Binding: harness/conc.py enumerates ALL
+exhaustively by TLC (deadlock-free, S1-S6).  Binding: harness/conc.py enumerates ALL
 schedules of the real code over its real suspension points (gated drain, should_replay,
 on_state_change, on_message, on_logon) by stateless DFS; TLC (spec/SendConcEval.tla)
-evaluates S1-S5 on the wire / journal / results of every execution; the set of wires is
+evaluates S1-S6 on the wire / journal / results of every execution; the set of wires is
 compared with the set TLC found reachable in the model (drift only)."""
 import json
 
@@ -15,7 +15,7 @@ from ..par import pmap
 
 def mc_cfg(apps, hb, rr, dump):
     return ("SPECIFICATION Spec\nCONSTANTS\n KF_BackwardReset = TRUE\n KF_StoredInLag = FALSE\n KF_WriteBeforeJournal = FALSE\n"
-            " Apps = {%s}\n WithHB = %s\n WithRR = %s\n Dump = %s\nVIEW View\nINVARIANT Inv_S1\nINVARIANT Inv_S2\nINVARIANT Inv_End\n%s"
+            " Apps = {%s}\n WithHB = %s\n WithRR = %s\n Dump = %s\nVIEW View\nINVARIANT Inv_S1\nINVARIANT Inv_S2\nINVARIANT Inv_S6\nINVARIANT Inv_End\n%s"
             % (",".join('"%s"' % a for a in apps), "TRUE" if hb else "FALSE", "TRUE" if rr else "FALSE",
                "TRUE" if dump else "FALSE", "INVARIANT Inv_DumpEnd\n" if dump else ""))
 
@@ -55,7 +55,7 @@ def run(ctx):
         for e in d["edges"]:
             ws.add(json.dumps([[w["kind"], w["seq"], w["pd"], w["pay"], w["newseq"]] for w in e["wire"]]))
         model_wires[json.dumps(c, sort_keys=True)] = ws
-        ctx.log("SendConc model apps=%s hb=%s +resend: %d states, no deadlock, S1-S5 hold, %d distinct terminal wires"
+        ctx.log("SendConc model apps=%s hb=%s +resend: %d states, no deadlock, S1-S6 hold, %d distinct terminal wires"
                 % (c["apps"], c["hb"], r["distinct"], len(ws)))
     res = pmap(_explore, [(c, cap) for c in cfgs], procs=len(cfgs), force=True)
     recs = []
